@@ -49,6 +49,114 @@ pub fn cleanup() {
     let _ = std::fs::remove_dir_all(&e.xdg);
 }
 
+/// Singular and plural display name of every registry unit, read once from
+/// single-unit compounds of power one (the case the crate's doc test pins).
+fn unit_names() -> &'static std::collections::BTreeMap<crate::tool::UKey, (String, String)> {
+    static N: OnceLock<std::collections::BTreeMap<crate::tool::UKey, (String, String)>> = OnceLock::new();
+    N.get_or_init(|| {
+        let v = crate::units_ref::vocab();
+        let mut m = std::collections::BTreeMap::new();
+        for u in &v.units {
+            // prefix -bias so that no prefix symbol is printed (kilogram: -3 -> plain `g`)
+            if let Some((cb, _)) = super::c17::compound_cbor(&[(u.variant.clone(), 1, -crate_bias(u))]) {
+                if let Ok(c) = serde_cbor::value::from_value::<anything::Compound>(cb) {
+                    m.insert(u.key(), (c.display(false).to_string(), c.display(true).to_string()));
+                }
+            }
+        }
+        m
+    })
+}
+
+fn crate_bias(u: &crate::units_ref::UnitDef) -> i32 {
+    // the stored prefix of a kilogram entry is relative to kg: the word `g` is stored as -3
+    if u.base_unit.as_deref() == Some("KiloGram") {
+        3
+    } else {
+        0
+    }
+}
+
+fn prefix_symbol(exp: i32) -> Option<&'static str> {
+    Some(match exp {
+        24 => "Y",
+        21 => "Z",
+        18 => "E",
+        15 => "P",
+        12 => "T",
+        9 => "G",
+        6 => "M",
+        3 => "k",
+        2 => "h",
+        1 => "da",
+        0 => "",
+        -1 => "d",
+        -2 => "c",
+        -3 => "m",
+        -6 => "μ",
+        -9 => "n",
+        -12 => "p",
+        -15 => "f",
+        -18 => "a",
+        -21 => "z",
+        -24 => "y",
+        _ => return None,
+    })
+}
+
+fn superscript(n: u32) -> String {
+    const D: [char; 10] = ['⁰', '¹', '²', '³', '⁴', '⁵', '⁶', '⁷', '⁸', '⁹'];
+    n.to_string().chars().map(|c| D[c.to_digit(10).unwrap() as usize]).collect()
+}
+
+/// Independent rendering of a unit: numerator units joined by `⋅`, `/`,
+/// denominator units; SI prefix symbol, name, superscript power; the name is
+/// pluralised only when asked and only for a lone numerator unit.  None when a
+/// prefix has no SI symbol (display detail outside the statement).
+pub fn unit_text_model(m: &crate::tool::Mirror, pluralize: bool) -> Option<String> {
+    use crate::tool::UKey;
+    let names = unit_names();
+    // the library keeps units in the order of its `Unit` enum: derived units by id, then the base units
+    let base_order = ["KiloGram", "Candela", "Meter", "Second", "Ampere", "Kelvin", "Mole", "Byte"];
+    let mut keys: Vec<&UKey> = m.keys().collect();
+    keys.sort_by_key(|k| match k {
+        UKey::Derived(id) => (0u8, *id as u64),
+        UKey::Base(b) => (1u8, base_order.iter().position(|x| x == b).unwrap_or(99) as u64),
+    });
+    let numer: Vec<&UKey> = keys.iter().copied().filter(|k| m[*k].0 >= 0).collect();
+    let denom: Vec<&UKey> = keys.iter().copied().filter(|k| m[*k].0 < 0).collect();
+    let lone = numer.len() == 1;
+    let item = |k: &UKey, plural: bool| -> Option<String> {
+        let (p, pre) = m[k];
+        let bias = if *k == UKey::Base("KiloGram".into()) { 3 } else { 0 };
+        let mut s = String::from(prefix_symbol(pre + bias)?);
+        let (sing, plur) = names.get(k)?;
+        s.push_str(if plural { plur } else { sing });
+        let a = p.unsigned_abs();
+        if a != 1 {
+            s.push_str(&superscript(a));
+        }
+        Some(s)
+    };
+    let mut out = String::new();
+    for (i, k) in numer.iter().enumerate() {
+        if i > 0 {
+            out.push('⋅');
+        }
+        out.push_str(&item(k, pluralize && lone)?);
+    }
+    if !denom.is_empty() {
+        out.push('/');
+        for (i, k) in denom.iter().enumerate() {
+            if i > 0 {
+                out.push('⋅');
+            }
+            out.push_str(&item(k, false)?);
+        }
+    }
+    Some(out)
+}
+
 /// Expected stdout, built from library results with the harness's own printing.
 fn expected_stdout(db: &Db, query: &str, exact: bool) -> Result<(String, Vec<&'static str>, bool), String> {
     guarded(query, || {
@@ -64,6 +172,7 @@ fn expected_stdout(db: &Db, query: &str, exact: bool) -> Result<(String, Vec<&'s
         let mut descs = Vec::new();
         let mut n = 0;
         let mut faithful = true;
+        let mut unit_mismatch: Option<(String, String)> = None;
         for r in anything::query(&parsed, db, Options::default(), &mut descs) {
             n += 1;
             match r {
@@ -104,6 +213,13 @@ fn expected_stdout(db: &Db, query: &str, exact: bool) -> Result<(String, Vec<&'s
                     }
                     let one = v.value.numer().is_one() && v.value.denom().is_one();
                     let unit = v.unit.display(!one).to_string();
+                    // the unit text itself, against the harness's own rendering
+                    if let Some(model) = unit_text_model(&m, !one) {
+                        classes.push("unit-text-modelled");
+                        if model != unit {
+                            unit_mismatch = Some((unit.clone(), model));
+                        }
+                    }
                     if unit != v.unit.display(false).to_string() {
                         classes.push("pluralised");
                     }
@@ -125,6 +241,11 @@ fn expected_stdout(db: &Db, query: &str, exact: bool) -> Result<(String, Vec<&'s
         if n >= 2 {
             classes.push("multi-result");
         }
+        if let Some((got, model)) = unit_mismatch {
+            // reported through the `faithful` channel with a marker
+            classes.push("UNIT-MISMATCH");
+            return (format!("{}\u{0}{}", got, model), classes, faithful);
+        }
         (String::from_utf8_lossy(&out).to_string(), classes, faithful)
     })
 }
@@ -144,6 +265,10 @@ fn check(c: &CliCase) -> CaseReport {
         };
         if !faithful {
             return CaseReport::fail(q, "default-rendering-not-faithful", json!({"query": q, "expected_stdout": want}));
+        }
+        if classes.contains(&"UNIT-MISMATCH") {
+            let (got, model) = want.split_once('\u{0}').unwrap_or((&want, ""));
+            return CaseReport::fail(q, "unit-text-differs-from-independent-rendering", json!({"query": q, "library_unit_text": got, "independent_rendering": model}));
         }
         let mut cmd = Command::new(&e.any);
         cmd.env("XDG_DATA_HOME", &e.xdg).env("TERM", "dumb").env("NO_COLOR", "1").env_remove("RUST_LOG").env_remove("RUST_BACKTRACE");
